@@ -37,13 +37,18 @@ def get_sys(shape, which=0):
     from quara.objects.composite_system import CompositeSystem
     from quara.objects.elemental_system import ElementalSystem
     from quara.objects import matrix_basis as mb
-    base = 100 * which + {"1q": 0, "3": 10, "2q": 20, "1q-pauli": 30, "1q-herm": 40}[shape]
+    base = 100 * which + {"1q": 0, "3": 10, "2q": 20, "1q-pauli": 30, "1q-herm": 40, "2q-exact": 50}[shape]
     if shape == "1q":
         c = CompositeSystem([ElementalSystem(base, mb.get_normalized_pauli_basis())])
     elif shape == "3":
         c = CompositeSystem([ElementalSystem(base, mb.get_normalized_gell_mann_basis())])
     elif shape == "2q":
         c = CompositeSystem([ElementalSystem(base, mb.get_normalized_pauli_basis()), ElementalSystem(base + 1, mb.get_normalized_pauli_basis())])
+    elif shape == "2q-exact":
+        # ONE 4-level system whose basis is the 2-qubit normalised Pauli basis with EXACT entries +-1/2, +-i/2 (quara's own product basis
+        # is (1/sqrt 2)^2 = 0.5000000000000001 in floats): with dyadic operands every float operation of the implementation is exact
+        sig = [np.eye(2), np.array([[0, 1], [1, 0]]), np.array([[0, -1j], [1j, 0]]), np.diag([1, -1])]
+        c = CompositeSystem([ElementalSystem(base, mb.MatrixBasis([np.kron(a, b).astype(np.complex128) / 2 for a in sig for b in sig]))])
     elif shape == "1q-pauli":      # Hermitian, NOT normalised: generic-basis branch
         c = CompositeSystem([ElementalSystem(base, mb.get_pauli_basis())])
     else:
@@ -56,7 +61,7 @@ def get_sys(shape, which=0):
 def sys_id(c_sys):
     for (shape, which), (c, _, _) in _SYS.items():
         if c is c_sys:
-            return 1000 * which + {"1q": 1, "3": 2, "2q": 3, "1q-pauli": 4, "1q-herm": 5}[shape]
+            return 1000 * which + {"1q": 1, "3": 2, "2q": 3, "1q-pauli": 4, "1q-herm": 5, "2q-exact": 6}[shape]
     return -1
 
 
@@ -80,7 +85,12 @@ def hs_of_map(B, f):
 
 def choi_of_hs(B, hs):
     n = len(B)
-    return sum(hs[a, b] * np.kron(B[a], B[b].conj()) for a in range(n) for b in range(n) if hs[a, b] != 0.0)
+    out = np.zeros((n, n), dtype=complex)                # (a zero effect gives the zero map)
+    for a in range(n):
+        for b in range(n):
+            if hs[a, b] != 0.0:
+                out = out + hs[a, b] * np.kron(B[a], B[b].conj())
+    return out
 
 
 # ------------------------------------------------------------------ quara objects from descriptions
@@ -433,7 +443,10 @@ def gen_chain(rng, d, length, force=None):
     counts = [2, 3, 4]; rng.shuffle(counts)
     for i in range(mid):
         if rng.random() < (0.65 if force != "gates" else 0.0):
-            descs.append(G.gen_mproc(rng, d, m=counts[i % 3] if rng.random() < 0.8 else None, eps=1e-8))
+            if rng.random() < 0.08:
+                descs.append(G.gen_mproc(rng, d, m=1, kind="randu", eps=1e-8))        # single-outcome instrument (shape (1,)): a unitary channel as MProcess
+            else:
+                descs.append(G.gen_mproc(rng, d, m=counts[i % 3] if rng.random() < 0.8 else None, eps=1e-8))
         else:
             descs.append(G.gen_gate(rng, d))
     if tail:
@@ -678,8 +691,37 @@ def sub_thresholds(ctx):
         for variant in ("exact-zero", "below", "above", "small-weight", "none", "tiny-retained", "ens-band"):
             for _ in range(ctx.n(3, 25)):
                 cases.append({"shape": shape, "variant": variant, "descs": gen_threshold_case(rng, d, variant), "starts": [0, 1, 2]})
+    # decisions EXACTLY AT a threshold, with exactly representable numbers (shape 2q-exact: Pauli basis entries +-1/2, sd = 2, dyadic states - every
+    # float operation of the implementation is exact, so the model's exact decision IS the implementation's): `weight*p <= eps_zero` of
+    # MProcess on State(Ensemble) (equality cuts) and `weight < eps_zero` of Povm on StateEnsemble (equality does not cut)
+    for tag, descs in gen_exact_threshold_cases(rng):
+        cases.append({"shape": "2q-exact", "variant": tag, "descs": descs, "starts": [0, 1] if len(descs) == 3 else [0, 1, 2]})
     ctx.sample("thresholds", {"shape": cases[0]["shape"], "variant": cases[0]["variant"]})
     ctx.run_cases("thresholds", chk_threshold, cases)
+
+
+def gen_exact_threshold_cases(rng):
+    I2 = np.eye(2, dtype=int); P = [np.diag([1, 0]), np.diag([0, 1])]
+
+    def lud(projs, eps):
+        return {"t": "mproc", "kind": "luders", "shape": [len(projs)], "eps": eps, "elems": [{"k": [[G.fjson(1), G.gjson(G.gz(K))]]} for K in projs]}
+
+    def diag_rho(entries):
+        R = G.gz(np.zeros((4, 4), dtype=int))
+        for i, x in enumerate(entries):
+            R[0][i, i] = Fr(x)
+        return {"t": "state", "rho": G.gjson(R), "kind": "dyadic"}
+    z0 = [np.kron(P[0], I2), np.kron(P[1], I2)]          # z-measurement of qubit 0
+    z1 = [np.kron(I2, P[0]), np.kron(I2, P[1])]          # z-measurement of qubit 1
+    E = Fr(1, 2 ** 10)
+    out = []
+    for tag, eps in (("exact-at-eps mproc cut (p == eps_zero)", E), ("exact-at-eps mproc retained (p == eps_zero(1+2^-20))", E * (1 - Fr(1, 2 ** 20)))):
+        out.append((tag, [G.gen_povm(rng, 4), lud(z0, float(eps)), diag_rho([1 - E, 0, E, 0])]))
+    for tag, eps1 in (("exact-at-eps povm-on-ensemble not cut (weight == eps_zero)", E), ("exact-at-eps povm-on-ensemble cut (weight == eps_zero(1-2^-20))", E * (1 + Fr(1, 2 ** 20)))):
+        h = Fr(1, 2 ** 9)
+        rho = diag_rho([Fr(1, 2) * (1 - h), Fr(1, 2) * h, Fr(1, 2) * (1 - h), Fr(1, 2) * h])
+        out.append((tag, [G.gen_povm(rng, 4), lud(z1, float(Fr(1, 2 ** 20))), lud(z0, float(eps1)), rho]))
+    return out
 
 
 # ------------------------------------------------------------------ error branches and argument handling (malformed stream)
@@ -908,9 +950,17 @@ def chk_gen_mprocess(ctx, case):
     if not cert_ok:
         ctx.note("gen_mprocess: the %s output failed its certificate on a %s POVM (oracle inaccuracy, case skipped)" % ("sqrtm" if mode == 0 else "eigh", desc.get("kind")))
         return
-    mod = [m.try_call("c06.gm_gb", [d, mode], [ATOL] + basis_q + k) for k in kernel]      # op mode 1 = the code after the fix
+    mod = [m.try_call("c06.gm_gb", [d, mode], [ATOL] + basis_q + k) for k in kernel]      # op mode 1 = the code (after the fixes)
     site = "Povm.generate_mprocess(mode_backaction=%d)" % mode
-    before_fix = False
+    # the labelled variants of mode 1 that are NOT the code: evaluated only when the implementation disagrees with the model, to name the regression
+    VARIANTS = [(12, "eigenspace-grouping-bitwise"),       # before fix povm-generate-mprocess-mode1-eigenspace-tolerance (grouping of bitwise equal eigenvalues only)
+                (10, "eigenvector-rows-no-conjugate"),     # before fix povm-generate-mprocess-mode1-eigenvectors
+                (11, "no-eigenspace-grouping")]            # docstring formula with one rank-one projector per eigenVECTOR (no grouping at all)
+    regression = None
+
+    def variant_hss(code):
+        rs = [m.try_call("c06.gm_gb", [d, code], [ATOL] + basis_q + k) for k in kernel]
+        return rs, ([np.array([float(x) for x in r[1]]).reshape(n, n) for r in rs] if all(r[0] == "ok" for r in rs) else None)
     # --- correspondence (physicality not required, so that the HS matrices are observable)
     if any(r[0] == "err" for r in mod):
         code = [r[1] for r in mod if r[0] == "err"][0]
@@ -918,25 +968,25 @@ def chk_gen_mprocess(ctx, case):
             ctx.violation("gen_mprocess", site, "model-mismatch", "model of the code: error %s, implementation %s" % (code, impl_np[:2] if impl_np[0] == "err" else "returned"), case)
         model_hss = None
     elif impl_np[0] == "err":
-        # regression to the code before fix povm-generate-mprocess-mode1-eigenvectors, which raises the same way on this input?
-        old = [m.try_call("c06.gm_gb", [d, 10], [ATOL] + basis_q + k) for k in kernel] if mode == 1 else []
-        oc = [r[1] for r in old if r[0] == "err"]
-        if oc and ERRKIND.get(oc[0]) == impl_np[1]:
-            before_fix = True
-            model_hss = [np.array([float(x) for x in r[1]]).reshape(n, n) for r in mod]
-        else:
+        model_hss = [np.array([float(x) for x in r[1]]).reshape(n, n) for r in mod]
+        for vcode, vsig in (VARIANTS if mode == 1 else []):
+            rs, _ = variant_hss(vcode)
+            oc = [r[1] for r in rs if r[0] == "err"]
+            if oc and ERRKIND.get(oc[0]) == impl_np[1]:
+                regression = vsig
+                break
+        if regression is None:
             ctx.violation("gen_mprocess", site, "model-mismatch", "implementation raised %s: %s, the model of the code returns HS matrices" % impl_np[1:], case)
-            model_hss = None
     else:
         model_hss = [np.array([float(x) for x in r[1]]).reshape(n, n) for r in mod]
         md = max(np.abs(a - np.asarray(b)).max() for a, b in zip(model_hss, impl_np[1].hss))
         if md > 1e-9 and mode == 1:
-            # regression to the code before fix povm-generate-mprocess-mode1-eigenvectors (rows of V, no conjugate)?  then the
-            # property predicate below names it; otherwise the correspondence itself is broken
-            old = [m.try_call("c06.gm_gb", [d, 10], [ATOL] + basis_q + k) for k in kernel]
-            if all(r[0] == "ok" for r in old) and max(np.abs(np.array([float(x) for x in r[1]]).reshape(n, n) - np.asarray(b)).max() for r, b in zip(old, impl_np[1].hss)) <= 1e-9:
-                before_fix = True; md = 0.0
-        if md > 1e-9:
+            for vcode, vsig in VARIANTS:
+                _, vh = variant_hss(vcode)
+                if vh is not None and max(np.abs(a - np.asarray(b)).max() for a, b in zip(vh, impl_np[1].hss)) <= 1e-9:
+                    regression = vsig
+                    break
+        if md > 1e-9 and regression is None:
             ctx.violation("gen_mprocess", site, "model-mismatch", "HS matrices differ from the model of the code by %.3g" % md, case)
     # --- property predicate on the implementation's instrument
     tol = 1e-7
@@ -945,21 +995,66 @@ def chk_gen_mprocess(ctx, case):
         bad = "generate_mprocess raised %s on a physical POVM: %s" % impl_ph[1:]
     elif impl_np[0] == "ok":
         bad = instrument_predicate(ctx, shape, vecs, impl_np[1].hss, tol)
-    if bad is None and mode == 0 and impl_np[0] == "ok":
-        # Lueders: HS_x is the map rho -> S rho S with S the PSD square root (independent evaluation by eigh)
+    rule = (lambda M_: luders_map(M_)) if mode == 0 else (lambda M_: eigenprojector_map(M_))
+    if bad is None and impl_np[0] == "ok":
+        # the quantum-mechanical rule of the mode, evaluated independently (numpy eigh, eigenvalues clustered at 1e-9):
+        # mode 0  rho -> sqrt(Pi) rho sqrt(Pi)  (Lueders);  mode 1  rho -> sum_i p_i P_i rho P_i  with P_i the EIGENSPACE projectors of Pi
         for x, (M_, hs) in enumerate(zip(mats, impl_np[1].hss)):
-            w, V = np.linalg.eigh(M_)
-            S = V @ np.diag(np.sqrt(np.clip(w, 0, None))) @ V.conj().T
-            if np.abs(np.asarray(hs) - hs_of_map(B, lambda X: S @ X @ S.conj().T)).max() > 1e-6:
-                bad = "mode 0: outcome %d is not the Lueders map sqrt(Pi) . sqrt(Pi)" % x
+            dev = np.abs(np.asarray(hs) - hs_of_map(B, rule(M_))).max()
+            if dev > 1e-6:
+                bad = ("mode 0: outcome %d is not the Lueders map sqrt(Pi) . sqrt(Pi) (HS differs by %.3g)" if mode == 0 else
+                       "mode 1: outcome %d is not the eigenprojector instrument sum_i p_i P_i . P_i of its effect (HS differs by %.3g): coherence inside a degenerate eigenspace is not preserved") % (x, dev)
+                break
+    if bad is None and impl_ph[0] == "ok":
+        # ... and as seen through composition: post-measurement states of a full-rank state with coherences
+        test = build(G.gen_state(rng, d, "full"), shape)
+        rho = op_of(B, test.vec)
+        with warnings.catch_warnings():
+            warnings.simplefilter("ignore")
+            ens = call_impl(lambda: eval_impl(None, [impl_ph[1], test], True))
+        if ens[0] != "ok":
+            bad = "compose(generated MProcess, State) raised %s: %s" % ens[1:]
+        else:
+            for x, M_ in enumerate(mats):
+                out = rule(M_)(rho); px = float(np.trace(out).real)
+                if px > 1e-6:
+                    got = op_of(B, ens[1].states[x].vec)
+                    if abs(float(ens[1].prob_dist.ps[x]) - px) > 1e-7 or np.abs(got - out / px).max() > 1e-6:
+                        bad = "post-measurement state / probability of outcome %d differs from the mode-%d rule (state by %.3g, probability %.6g vs %.6g)" % (
+                            x, mode, np.abs(got - out / px).max(), float(ens[1].prob_dist.ps[x]), px)
+                        break
     if bad is not None:
         sig = "instrument"
-        if mode == 1:
-            # attribute: the implementation is (or raises like) the code before fix povm-generate-mprocess-mode1-eigenvectors, and the
-            # faithful model (columns of V, conjugate) on the same eigh output satisfies the predicate
-            if before_fix and model_hss is not None and instrument_predicate(ctx, shape, vecs, model_hss, tol) is None:
-                sig = "eigenvector-rows-no-conjugate"
+        if mode == 1 and regression is not None and model_hss is not None:
+            # attribute: the implementation is (or raises like) a labelled non-code variant, and the model of the code satisfies the predicate
+            ok_model = instrument_predicate(ctx, shape, vecs, model_hss, tol) is None and all(
+                np.abs(h - hs_of_map(B, eigenprojector_map(M_))).max() <= 1e-6 for M_, h in zip(mats, model_hss))
+            if ok_model:
+                sig = regression
         ctx.violation("gen_mprocess", site, sig, "%s POVM with %d outcomes on %s: %s" % (desc.get("kind"), len(vecs), shape, bad), case)
+
+
+def spectral_clusters(M_, gap=1e-9):
+    """eigen-decomposition of a Hermitian matrix with eigenvalues closer than gap merged: list of (mean eigenvalue, eigenspace projector)"""
+    w, V = np.linalg.eigh(np.asarray(M_))
+    out = []; start = 0
+    for k in range(1, len(w) + 1):
+        if k == len(w) or w[k] - w[k - 1] > gap:
+            Vc = V[:, start:k]
+            out.append((float(np.mean(w[start:k])), Vc @ Vc.conj().T))
+            start = k
+    return out
+
+
+def eigenprojector_map(M_):
+    cl = spectral_clusters(M_)
+    return lambda X: sum(p * (P @ X @ P) for p, P in cl)
+
+
+def luders_map(M_):
+    cl = spectral_clusters(M_)
+    S = sum(np.sqrt(max(p, 0.0)) * P for p, P in cl)
+    return lambda X: S @ X @ S.conj().T
 
 
 def chk_gm_errors(ctx, case):
@@ -979,10 +1074,14 @@ def chk_gm_errors(ctx, case):
 def sub_gen_mprocess(ctx):
     rng = ctx.rng
     cases = []
-    for shape, d, cnt in (("1q", 2, ctx.n(10, 80)), ("3", 3, ctx.n(4, 50)), ("2q", 4, ctx.n(1, 14))):
+    for shape, d, cnt in (("1q", 2, ctx.n(8, 80)), ("3", 3, ctx.n(4, 50)), ("2q", 4, ctx.n(2, 14))):
         for i in range(cnt):
             for mode in (0, 1, 2):
                 kind = rng.choice(["generic", "generic", "mixed", "proj"])
+                if mode == 1 and i % 2 == 1:
+                    # degenerate spectra (the eigenspace grouping of mode 1): multiples of I on a qubit, coarse-grained / unsharp effects with
+                    # a repeated eigenvalue in aligned and rotated eigenbases on the qutrit and on 2 qubits, effects acting on one qubit of two
+                    kind = rng.choice(["trivial"] if d == 2 else (["deg-aligned", "deg-rotated"] if d == 3 else ["deg-aligned", "deg-rotated", "product"]))
                 mcount = rng.choice([2, 3, 4])
                 desc = G.gen_povm(rng, d, m=mcount, kind=kind)
                 cases.append({"shape": shape, "mode": mode, "povm": desc, "single": rng.random() < 0.3, "seed": rng.randrange(10 ** 9)})
@@ -992,9 +1091,97 @@ def sub_gen_mprocess(ctx):
     ctx.run_cases("gen_mprocess", chk_gm_errors, errs)
 
 
+# ------------------------------------------------------------------ mode_sampling=True (the random draw itself is an oracle; support and statistics are checked)
+SITE_SAMP_S = "operators._compose_qoperations_MProcess_State(mode_sampling=True)"
+SITE_SAMP_E = "operators._compose_qoperations_MProcess_StateEnsemble(mode_sampling=True)"
+
+
+def chk_sampling(ctx, case):
+    """MProcess(mode_sampling=True) on a State returns ONE post state, on a StateEnsemble one post state per branch with the incoming
+    distribution.  Reference: the model's non-sampling result (all post states with their probabilities).  Checked: every draw lies in the
+    support (a post state of non-zero probability of that branch, the zero state for a zero-weight branch), the outgoing ensemble keeps the
+    incoming distribution and shape, and over N draws the outcome frequencies agree with the conditional probabilities within
+    5 standard deviations (the global numpy RNG / the MProcess's stream is seeded from the case, so the check is deterministic)."""
+    from quara.objects.mprocess import MProcess
+    from quara.objects.state import State
+    shape = case["shape"]; descs = case["descs"]; N = case["n"]
+    c, B, d = get_sys(shape); n = d * d; sd = float(np.sqrt(d))
+    objs = [build(ds, shape) for ds in descs]
+    ms = objs[0]
+    sampler = MProcess(c, [np.array(h) for h in ms.hss], shape=ms.shape, eps_zero=ms.eps_zero, mode_sampling=True, random_seed_or_generator=case["seed"])
+    with warnings.catch_warnings():
+        warnings.simplefilter("ignore")
+        inner = objs[1] if len(objs) == 2 else eval_impl(None, objs[1:], True)
+    ref = model_compose(ctx, n, sd, [mobj_of_impl(ms), mobj_of_impl(inner)])
+    on_state = isinstance(inner, State)
+    site = SITE_SAMP_S if on_state else SITE_SAMP_E
+    ctx.count("sampling", key=repr(case), label="%s %s on %s" % (shape, descs[0].get("kind"), "state" if on_state else "ensemble of %d" % len(inner.states)))
+    if ref[0] != "ok":
+        raise AssertionError("sampling: the model rejects physical operands: %s" % (ref,))
+    ref = floatify(ref[1]); m = len(ms.hss)
+    S = np.array(ref["S"]).reshape(-1, n); ps = np.array(ref["ps"])
+    nb = len(ps) // m                                  # branches
+    cond = []
+    for b in range(nb):
+        blk = ps[b * m:(b + 1) * m]
+        cond.append(blk / blk.sum() if blk.sum() > 0 else None)
+    counts = np.zeros((nb, m)); np.random.seed(case["seed"] % (2 ** 32))
+    for it in range(N):
+        with warnings.catch_warnings():
+            warnings.simplefilter("ignore")
+            r = call_impl(lambda: eval_impl(None, [sampler, inner], True))
+        if r[0] != "ok":
+            sig = "sampling-branch-probabilities-unnormalised" if "multinomial.rvs" in r[2] else "raises-on-physical-operands"
+            ctx.violation("sampling", site, sig, "mode_sampling=True on %s raised %s: %s" % ("a State" if on_state else "an ensemble with branch weights %s" % np.round(inner.prob_dist.ps, 6).tolist(), r[1], r[2]), case)
+            return
+        got = [r[1]] if on_state else list(r[1].states)
+        if not on_state:
+            if len(got) != nb or [int(x) for x in r[1].prob_dist.shape] != [int(x) for x in inner.prob_dist.shape] or flow.maxdiff(list(r[1].prob_dist.ps), list(inner.prob_dist.ps)) > 1e-12:
+                ctx.violation("sampling", site, "sampling-ensemble-distribution", "the sampled ensemble does not keep the incoming distribution / shape", case)
+                return
+        for b, st in enumerate(got):
+            if cond[b] is None:
+                if np.abs(st.vec).max() != 0.0:
+                    ctx.violation("sampling", site, "sampling-support", "branch %d has weight 0 but a non-zero sampled state" % b, case)
+                    return
+                continue
+            hit = [y for y in range(m) if cond[b][y] > 0 and np.abs(S[b * m + y] - st.vec).max() <= 1e-9]
+            if not hit:
+                ctx.violation("sampling", site, "sampling-support", "draw %d: the sampled state of branch %d is not a post state of non-zero probability of that branch" % (it, b), case)
+                return
+            counts[b, hit[0]] += 1          # (identical post states of different outcomes are counted on the first; their probabilities are merged below)
+    for b in range(nb):
+        if cond[b] is None:
+            continue
+        q = np.zeros(m)
+        for y in range(m):
+            if cond[b][y] > 0:
+                first = [z for z in range(m) if cond[b][z] > 0 and np.abs(S[b * m + z] - S[b * m + y]).max() <= 1e-9][0]
+                q[first] += cond[b][y]
+        dev = np.abs(counts[b] / N - q); lim = 5 * np.sqrt(q * (1 - q) / N) + 1.0 / N
+        if (dev > lim).any():
+            y = int(np.argmax(dev - lim))
+            ctx.violation("sampling", site, "sampling-distribution", "branch %d: outcome %d was drawn with frequency %.3f over %d draws, its conditional probability is %.3f" % (b, y, counts[b, y] / N, N, q[y]), case)
+            return
+
+
+def sub_sampling(ctx):
+    rng = ctx.rng
+    cases = []
+    for shape, d, cnt in (("1q", 2, ctx.n(4, 30)), ("3", 3, ctx.n(2, 15))):
+        for i in range(cnt):
+            sampler = G.gen_mproc(rng, d, kind=rng.choice(["luders", "prep", "randu", "damp"]))
+            tail = [G.gen_state(rng, d)] if i % 2 == 0 else [G.gen_mproc(rng, d, m=rng.choice([2, 3])), G.gen_state(rng, d)]
+            if i % 4 == 3:
+                align_zero(rng, tail, d)          # a branch of weight zero
+            cases.append({"shape": shape, "descs": [sampler] + tail, "seed": rng.randrange(10 ** 9), "n": ctx.n(120, 400)})
+    ctx.sample("sampling", {"shape": cases[0]["shape"], "types": [x["t"] for x in cases[0]["descs"]], "n": cases[0]["n"]})
+    ctx.run_cases("sampling", chk_sampling, cases)
+
+
 SUBS = [("chains", sub_chains), ("thresholds", sub_thresholds), ("errors", sub_errors), ("generic_basis", sub_generic_basis),
-        ("gen_mprocess", sub_gen_mprocess)]
-FNS = {"chains": chk_chain, "thresholds": chk_threshold, "errors": chk_errors, "generic_basis": chk_generic_basis,
+        ("gen_mprocess", sub_gen_mprocess), ("sampling", sub_sampling)]
+FNS = {"chains": chk_chain, "thresholds": chk_threshold, "errors": chk_errors, "generic_basis": chk_generic_basis, "sampling": chk_sampling,
        "gen_mprocess": lambda ctx, case: (chk_gm_errors if "post" in case else chk_gen_mprocess)(ctx, case)}
 
 
